@@ -3,7 +3,7 @@ CONSTANTS
   QMode = "keyed"
   ProgSel = 2
   MaxLen = 1
-  MaxSteps = 3
+  MaxSteps = 2
   MaxTime = 24
 CONSTRAINT Bound
 INVARIANT InvStackRestored
